@@ -20,6 +20,7 @@ RULE = (
     "widths).  identical()==True is judged by padding the two variable sets with fresh names per sort and trying "
     "every sort-preserving bijection (<= 5 padded variables, else counted as not judged); False and a call that "
     "raises are never judged.  Non-trivial: the input contains an operator node; distinct by (utility, descriptor) hash."
+    " Session 4: fp-valued ite_cases/ite_dict (two zeros, NaN, infinities), canonicalize over annotated occurrences and over expressions that already contain canonical names (one name per variable)."
 )
 ASSUMPTIONS = ["z3 decides the QF_BV equivalences within the timeout; timeouts fall back to sampling and are counted"]
 
